@@ -321,6 +321,23 @@ Section Real.
     - intros m Hm Hpos. specialize (B8 m Hm Hpos). lia.
   Qed.
 
+  (* ... and for a run resumed from any payload the run emitted (C11 composed with the above) *)
+  Theorem sample_schedule_resumed fuel o p0 g0 out evs :
+    valid o -> SAMPLE fuel o p0 g0 = Ok (out, evs) ->
+    forall c, In c evs ->
+    exists out' evs',
+      RESUMED fuel o c = Ok (out', evs')
+      /\ let bs := hbeta (o_hist _ _ _ out') in
+         incr_from 0 bs /\ Forall (fun b => 0 < b <= 1) bs /\ bs <> []
+         /\ o_iter _ _ _ out' = length bs
+         /\ (last bs 0 = 1 \/ exists m, max_n_steps NumR o = Some m /\ (m <= length bs)%nat)
+         /\ (forall m, max_n_steps NumR o = Some m -> (0 < m)%nat -> (length bs <= m)%nat).
+  Proof.
+    intros Hv Hs c Hc.
+    destruct (resume_equals_uninterrupted fuel o p0 g0 out evs Hv Hs c Hc) as (evs' & Hres & _).
+    exists out, evs'. split; [exact Hres|]. exact (sample_schedule fuel o p0 g0 out evs Hv Hs).
+  Qed.
+
   Theorem sample_terminates f o p0 g0 :
     valid o -> fuel_ok o -> 1 <= INR f * delta o -> exists r, SAMPLE f o p0 g0 = Ok r.
   Proof.
